@@ -82,6 +82,19 @@ impl Sys for Sys13 {
                         // state allowed to differ from the driver's flag afterwards
                         if rig.ctl.slp_events.len() != n_slp0 {
                             diverged = true;
+                            // At the Interface boundary (recording transports) commands are atomic: the failing
+                            // command was not delivered, so a sleep command that *was* delivered in this failed call
+                            // is a different, successful one - the flag and the controller now disagree, and no
+                            // reading of "last successful call" repairs that.
+                            if !cfg.tr.is_real() {
+                                bad = Some(format!(
+                                    "{}/diverged-after-failed-call|the call failed at its command #{k}, but a sleep-in/out command of the same call had already reached the controller: controller sleeping = {}, is_sleeping() = {}",
+                                    op.name(),
+                                    rig.ctl.sleeping,
+                                    rig.dut.as_ref().unwrap().is_sleeping()
+                                ));
+                                break;
+                            }
                         }
                         if i + 1 == hist.len() {
                             e1::flag();
